@@ -49,6 +49,7 @@ Spec == Init /\ [][Eval]_vars
 SameSolutions == bad = {}
 \* ---- B1 ----
 CONSTANTS NV, LMAX, GAPS
+GapsWide == {-1, 0, 1}     \* (a cfg file cannot spell a negative number: the thorough tier substitutes GAPS <- GapsWide)
 AllCons == {<<l, r, g, e>> : l \in 1..NV, r \in 1..NV, g \in GAPS, e \in BOOLEAN}
 Lists == UNION {[1..m -> {c \in AllCons : c[1] # c[2]}] : m \in 1..LMAX}
 \* only lists with at least two equalities can have anything removed
